@@ -9,6 +9,7 @@ NEXT Next
 CHECK_DEADLOCK FALSE
 INVARIANTS
   TypeOK
+  OrderIndependent
   UnreadTouchesNothing
   PredictionMatchesMachine
   AbortCharacterised
